@@ -574,7 +574,11 @@ pub struct Framed {
 }
 
 fn flip_len(n: &mut cborx::Node) -> Option<&'static str> {
-    let cnt = n.count() as u64;
+    let cnt = match &n.k {
+        cborx::Kind::Array(v, _) => v.len() as u64,
+        cborx::Kind::Map(v, _) => v.len() as u64,
+        _ => 0,
+    };
     match &mut n.k {
         cborx::Kind::Array(_, l) => {
             let to_indef = matches!(l, cborx::Len::Def(_));
@@ -602,21 +606,21 @@ fn framed_variants(arts: &[Art]) -> Vec<Framed> {
             continue;
         }
         // outputs (body key 1) and the collateral return (key 16)
-        let n_out = items[0].map_get(1).map(|o| o.count()).unwrap_or(0);
+        let n_out = items[0].map_get(1).and_then(|o| o.untagged().as_array()).map(|o| o.len()).unwrap_or(0);
         for j in 0..n_out {
             let mut r = root.clone();
-            let o = r.nth_mut(0).and_then(|b| b.map_get_mut(1)).and_then(|o| o.nth_mut(j));
+            let o = r.as_array_mut().and_then(|v| v.get_mut(0)).and_then(|b| b.map_get_mut(1)).and_then(|o| o.as_array_mut()).and_then(|v| v.get_mut(j));
             if let Some(what) = o.and_then(flip_len) {
                 out.push(Framed { name: a.name.clone(), site: format!("output:{what}"), bytes: cborx::write(&r), orig: a.bytes.clone() });
             }
         }
         let mut r = root.clone();
-        if let Some(what) = r.nth_mut(0).and_then(|b| b.map_get_mut(16)).and_then(flip_len) {
+        if let Some(what) = r.as_array_mut().and_then(|v| v.get_mut(0)).and_then(|b| b.map_get_mut(16)).and_then(flip_len) {
             out.push(Framed { name: a.name.clone(), site: format!("collateral-return:{what}"), bytes: cborx::write(&r), orig: a.bytes.clone() });
         }
         let mut r = root.clone();
         let last = items.len() - 1;
-        if let Some(what) = r.nth_mut(last).and_then(flip_len) {
+        if let Some(what) = r.as_array_mut().and_then(|v| v.get_mut(last)).and_then(flip_len) {
             out.push(Framed { name: a.name.clone(), site: format!("auxiliary-data:{what}"), bytes: cborx::write(&r), orig: a.bytes.clone() });
         }
     }
